@@ -150,6 +150,10 @@ EXTRA = {
     'C16': dict(level=' Every node object a step creates gets a note written into its metadata dict for a moment (and durably by an annotate step); no tree obtained earlier may show it.', technique='; metadata-aliasing probe on every created object'),
     'C19': dict(level=' Numerals include integers beyond the float range and 360-digit integers.', technique=''),
 }
+for _pid in ('C08', 'C09', 'C10', 'C13', 'C14'):
+    EXTRA.setdefault(_pid, dict(level='', technique=''))
+    EXTRA[_pid]['level'] += ' The thorough tier adds coverage-guided campaigns (atheris/libFuzzer, 8 processes x 60 000 executions) whose byte input is the tape of the check\'s own generator, with the same semantic oracle inside the target.'
+    EXTRA[_pid]['technique'] += '; coverage-guided fuzzing of generator tapes (atheris) with the semantic oracle in the target (thorough tier)'
 for _pid, _e in EXTRA.items():
     CHECKS[_pid]['level'] += _e['level']
     CHECKS[_pid]['technique'] += _e['technique']
